@@ -143,18 +143,29 @@ class Run:
     def build_exporter_class(self):
         sc = self.sc
         run = self
+        # every third exporter is a two-level class hierarchy whose decorator-bound implementations of ONE interface are
+        # spread over the base class and the derived class (the exported object is an instance of the derived class)
+        hierarchy = sc.idx % 3 == 1
         attrs = {'dbusInterfaces': sc.interfaces()}
+        derived = {}
+        j = 0
         for which, iname, methods in ((1, sc.iface_name, sc.methods), (2, sc.iface2_name, sc.methods2)):
-            for m, spec in methods.items():
+            for m, spec in sorted(methods.items()):
                 nargs = len(G.split_signature(spec['in']))
                 params = ['self'] + ['a%d' % i for i in range(nargs)]
-                shared = m in sc.methods2
+                shared = m in sc.methods2 or hierarchy
                 fname = ('impl%d_%s' % (which, m)) if shared else 'dbus_' + m
                 src = 'def %s(%s):\n    return _impl(%r, [%s], %d)\n' % (fname, ', '.join(params), m,
                                                                           ', '.join('a%d' % i for i in range(nargs)), which)
                 ns = {'_impl': run.impl}
                 exec(src, ns)
-                attrs[fname] = O.dbusMethod(iname, m)(ns[fname]) if shared else ns[fname]
+                target = derived if (hierarchy and j % 2) else attrs
+                target[fname] = O.dbusMethod(iname, m)(ns[fname]) if shared else ns[fname]
+                j += 1
+        if hierarchy:
+            self.hierarchy_levels = (len(attrs) - 1, len(derived))
+            base = type('ExpBase%d' % sc.idx, (O.DBusObject,), attrs)
+            return type('Exp%d' % sc.idx, (base,), derived)
         return type('Exp%d' % sc.idx, (O.DBusObject,), attrs)
 
     def impl(self, method, args, which=1):
@@ -235,6 +246,8 @@ class Run:
                 ctx.report(classify_connect(c), 'a client could not attach to the built-in bus: %r' % (c.conn_result,), w, case)
                 return False
         obj = self.build_exporter_class()('/exp')
+        if getattr(self, 'hierarchy_levels', None) and min(self.hierarchy_levels) > 0:
+            ctx.count('exporters_binding_one_interface_on_two_class_levels')
         exporter.conn.exportObject(obj)
         dest = exporter.conn.busName
         if sc.use_name:
